@@ -3,8 +3,10 @@ C02 case generator (core Lean only).
 
 Three kinds of case lines:
 * programs  `<label> ev=..;it=..;ex=..;src=..` : every nesting of the one-hole contexts below to
-  depth 2 (depth 3 seeded in the quick tier, complete in the thorough tier) × every leaf
-  (which probe raises which class / returns / breaks / continues / falls through);
+  depth 2 (depth 3 seeded in the quick tier - 1500 uniform + 4500 weighted towards handler-in-handler and
+  finally-in-handler shapes -, complete in the thorough tier) × every leaf
+  (which probe raises which class / returns / breaks / continues / re-raises / falls through);
+  every depth-1 program also behind two wrapper functions (multi-frame tracebacks);
 * `xm=<raised>:<caught>[,<caught>..]` : `ExceptionGivenMatches` on all pairs of classes and on tuples;
 * `ln=<k><line>,..` : instruction streams for `Lnotab()` / `Addr2Line` (k = o|a|x|l: sizes 1, 3, 6, 0).
 -/
@@ -70,6 +72,10 @@ partial def layout (ind ln : Nat) : Stmt → Stmt × List String × Nat
   | .ev _ i => (.ev ln i, [indentStr ind ++ s!"ev({i})"], ln + 1)
   | .ret _ i => (.ret ln i, [indentStr ind ++ s!"return ev({i})"], ln + 1)
   | .raise _ c => (.raise ln c, [indentStr ind ++ s!"raise {c.name}"], ln + 1)
+  | .reraise _ => (.reraise ln, [indentStr ind ++ "raise"], ln + 1)
+  | .raiseX _ (.inst c k) => (.raiseX ln (.inst c k), [indentStr ind ++ s!"raise {c.name}({k})"], ln + 1)
+  | .raiseX _ (.from c d) => (.raiseX ln (.from c d), [indentStr ind ++ s!"raise {c.name} from {d.name}"], ln + 1)
+  | .raiseX _ (.nonExc k) => (.raiseX ln (.nonExc k), [indentStr ind ++ s!"raise {k}"], ln + 1)
   | .brk _ => (.brk ln, [indentStr ind ++ "break"], ln + 1)
   | .cont _ => (.cont ln, [indentStr ind ++ "continue"], ln + 1)
   | .seq a b =>
@@ -134,7 +140,7 @@ where
 
 def Instr.text : Instr → String
   | .loadGlobal (.fn .ev) => "LOAD_GLOBAL:ev" | .loadGlobal (.fn .it) => "LOAD_GLOBAL:it"
-  | .loadGlobal (.fn .cm) => "LOAD_GLOBAL:cm" | .loadGlobal (.cls c) => "LOAD_GLOBAL:" ++ c.name
+  | .loadGlobal (.fn .cm) => "LOAD_GLOBAL:cm" | .loadGlobal (.fn .user) => "LOAD_GLOBAL:f" | .loadGlobal (.cls c) => "LOAD_GLOBAL:" ++ c.name
   | .loadConst .none => "LOAD_CONST:None" | .loadConst (.int n) => s!"LOAD_CONST:{n}"
   | .callFunction n => s!"CALL_FUNCTION:{n}"
   | .popTop => "POP_TOP:" | .dupTop => "DUP_TOP:"
@@ -243,7 +249,27 @@ def contexts : List (String × (G Stmt → G Stmt)) := [
   ("withN", fun h => do let i ← cmProbe []; let b ← thenOk h; pure (.withS 0 i b)),
   ("withT", fun h => do let i ← cmProbe [.bool true]; let b ← thenOk h; pure (.withS 0 i b)),
   ("with1", fun h => do let i ← cmProbe [.int 1, .int 1]; let b ← h; pure (.withS 0 i b)),
-  ("withF0", fun h => do let i ← cmProbe [.bool false, .int 0]; let b ← thenOk h; pure (.withS 0 i b))
+  ("withF0", fun h => do let i ← cmProbe [.bool false, .int 0]; let b ← thenOk h; pure (.withS 0 i b)),
+  -- handler-in-handler / finally-in-handler shapes (handled-exception state, bare `raise`)
+  ("tryE.hRe", fun h => do
+      let h1 ← thenOk h
+      pure (.tryE 0 (.raise 0 .KeyError) (mk1 .LookupError) (.seq h1 (.reraise 0)) none .skip .skip)),
+  ("tryE.hnRe", fun h => do
+      let h1 ← thenOk h
+      pure (.tryE 0 (.raise 0 .ZeroDivisionError) (mk1 .ArithmeticError true) (.seq h1 (.reraise 0)) none .skip .skip)),
+  ("caughtF", fun h => do
+      let b ← thenOk h; let f ← okS; let h1 ← okS
+      pure (.tryE 0 (.tryF 0 b f) (mk1 .Exception) h1 none .skip .skip)),
+  ("caughtW", fun h => do
+      let i ← cmProbe [.bool false]; let b ← thenOk h; let h1 ← okS
+      pure (.tryE 0 (.withS 0 i b) (mk1 .Exception) h1 none .skip .skip)),
+  ("caughtH", fun h => do
+      let hb ← thenOk h; let h1 ← okS
+      pure (.tryE 0 (.tryE 0 (.raise 0 .ValueError) (mk1 .ValueError) hb none .skip .skip)
+              (mk1 .Exception) h1 none .skip .skip)),
+  ("finRe", fun h => do
+      let b ← thenOk h; let a ← okS
+      pure (.tryF 0 b (.seq a (.reraise 0))))
 ]
 
 def leaves : List (String × G Stmt) := [
@@ -263,8 +289,33 @@ def leaves : List (String × G Stmt) := [
   ("ifCondRaises", do
       let i ← evProbe [.raise .LookupError]; let b ← okS; pure (.ifS 0 i b .skip)),
   ("whileCondRaises2nd", do
-      let i ← evProbe [.val 1, .raise .ArithmeticError]; let b ← okS; pure (.whileS 0 i b .skip))
+      let i ← evProbe [.val 1, .raise .ArithmeticError]; let b ← okS; pure (.whileS 0 i b .skip)),
+  ("reraise", pure (.reraise 0)),
+  ("raiseInst", pure (.raiseX 0 (.inst .KeyError 3))),
+  ("raiseFrom", pure (.raiseX 0 (.from .ValueError .KeyError))),
+  ("raiseInt", pure (.raiseX 0 (.nonExc 5)))
 ]
+
+/-- sampling weights for the seeded depth-3 programs: contexts that put the hole inside an
+exception handler / a finally body / on a path where an exception passes through finally or with
+are drawn 4 times as often, leaves that raise (bare `raise` most) more often than the rest -/
+def ctxWeight (n : String) : Nat :=
+  if ["tryE.h", "tryE2.h2n", "tryEF.hn", "tryE.hRe", "tryE.hnRe", "caughtF", "caughtW", "caughtH", "finRe",
+      "tryF.fin", "raiseF.fin"].contains n then 4
+  else if ["tryF.body", "tryE.body", "tryE2.body", "tryEF.body", "with1", "withN", "withF0", "withT"].contains n then 2
+  else 1
+
+def leafWeight (n : String) : Nat :=
+  if n == "reraise" then 6
+  else if ["raiseIndexError", "raiseOverflow", "raiseException", "evKeyError", "evZeroDiv", "raiseInst", "raiseFrom",
+           "return", "break", "continue"].contains n then 2
+  else 1
+
+def weighted (names : List String) (wt : String → Nat) : Array Nat :=
+  ((List.range names.length).flatMap fun i => List.replicate (wt names[i]!) i).toArray
+
+def wContexts : Array Nat := weighted (contexts.map (·.1)) ctxWeight
+def wLeaves : Array Nat := weighted (leaves.map (·.1)) leafWeight
 
 /-! ### cases -/
 
@@ -281,11 +332,21 @@ def scriptText (b : B) : String :=
 
 def fuel : Nat := 200000
 
-def progCase (label : String) (g : G Stmt) (extraTags : List String := []) : Case :=
+/-- `wrap` = number of wrapper functions `def g<j>(): return <previous>()` between the module-level
+call and `f` (0: `r = f()`).  The specification's traceback names the line of every active call. -/
+def progCase (label : String) (g : G Stmt) (extraTags : List String := []) (wrap : Nat := 0) : Case :=
   let (s0, b) := g.run {}
   let (body, text, next) := layout 1 2 s0
-  let callLine := next
-  let src := "\\n".intercalate (["def f():"] ++ text ++ ["r = f()"])
+  -- wrapper g_j: `def` on line next + 2(j-1), its `return` on the line after; module call after the last
+  let wrapText := (List.range wrap).flatMap fun j =>
+    [s!"def g{j+1}():", s!"    return {if j = 0 then "f" else s!"g{j}"}()"]
+  let callLine := next + 2 * wrap
+  let top := if wrap = 0 then "f" else s!"g{wrap}"
+  let src := "\\n".intercalate (["def f():"] ++ text ++ wrapText ++ [s!"r = {top}()"])
+  -- the calls that are active when f runs, outermost first: (function name, line)
+  let calls : List (String × Nat) :=
+    ("<module>", callLine) :: ((List.range wrap).reverse.map fun j => (s!"g{j+1}", next + 2 * j + 1))
+  let callText := ",".intercalate (calls.map fun (n, l) => s!"{n}:{l}")
   let w0 : LogW := { ev := b.ev, itLen := b.it, ex := b.ex }
   -- specification
   let specV :=
@@ -294,9 +355,9 @@ def progCase (label : String) (g : G Stmt) (extraTags : List String := []) : Cas
       | none => "SPEC-OUT-OF-FUEL"
       | some (w, .ret none) => logText w ++ "|R:None"
       | some (w, .ret (some v)) => logText w ++ s!"|R:{v}"
-      | some (w, .exc c ln) => logText w ++ s!"|E:{c.name}@<module>:{callLine},f:{ln}"
+      | some (w, .exc c ln) => logText w ++ s!"|E:{c.name}@{callText},f:{ln}"
       | some (w, .stray) => logText w ++ "|STRAY"
-  -- model
+  -- model: f's frame, then the wrapper frames and the module frame around it
   let (modelV, modelR) :=
     match compileFn 1 body with
     | .error _ => ("|E:SyntaxError@compile", "")
@@ -304,15 +365,27 @@ def progCase (label : String) (g : G Stmt) (extraTags : List String := []) : Cas
       let (tr, e) := runTrace logPrims code fuel (initVM w0) []
       let v := match e with
         | none => "MODEL-OUT-OF-FUEL"
-        | some (.ret v w) => logText w ++ "|R:" ++ valText v
-        | some (.exc e w) =>
-          let cls := match e.type with | some c => c.name | none => "?"
-          let tb := match e.tb with
-            | some ls => ",".intercalate (ls.map fun l => s!"f:{l}")
-            | none => "-"
-          logText w ++ s!"|E:{cls}@<module>:{callLine}," ++ tb
         | some (.panic m) => "PANIC:" ++ m
         | some (.unsupported m) => "UNSUPPORTED:" ++ m
+        | some e0 =>
+          let inner : LogW → LogW × CallRes := fun w => Exit.toCall w (some e0)
+          let wrapLines := (calls.drop 1).map (·.2)
+          let chain := runChain logPrims inner wrapLines
+          match chain w0 with
+          | (w, .val v) => logText w ++ "|R:" ++ valText v
+          | (_, .exc _) =>
+            match run { logPrims with call := chain } (moduleCode callLine) 6 (initVM w0) with
+            | some (.exc e w) =>
+              let cls := match e.type with | some c => c.name | none => "?"
+              let names := calls.map (·.1)
+              let tb := match e.tb with
+                | some ls => ",".intercalate ((List.range ls.length).map fun k => s!"{names.getD k "f"}:{ls[k]!}")
+                | none => "-"
+              logText w ++ s!"|E:{cls}@" ++ tb
+            | some (.ret v w) => logText w ++ "|R!:" ++ valText v
+            | some (.panic m) => "PANIC:" ++ m
+            | some (.unsupported m) => "UNSUPPORTED:" ++ m
+            | none => "MODEL-OUT-OF-FUEL"
       (v, codeText code ++ "|" ++ " ".intercalate tr)
   { input := label ++ " " ++ scriptText b ++ ";src=" ++ src, modelV := modelV, modelR := modelR,
     specV := specV, tags := extraTags }
@@ -322,6 +395,11 @@ def nontrivialLeaf (l : String) : Bool := l != "ok" && l != "pass"
 def depth1 : List Case :=
   contexts.flatMap fun (cn, c) => leaves.map fun (ln, l) =>
     progCase s!"d1:{cn}/{ln}" (c l) (if nontrivialLeaf ln then ["nt"] else [])
+
+/-- every depth-1 program again behind two wrapper functions (three active calls in the traceback) -/
+def depth1Wrapped : List Case :=
+  contexts.flatMap fun (cn, c) => leaves.map fun (ln, l) =>
+    progCase s!"d1w:{cn}/{ln}" (c l) (if nontrivialLeaf ln then ["nt"] else []) 2
 
 def depth2 : List Case :=
   contexts.flatMap fun (cn1, c1) => contexts.flatMap fun (cn2, c2) => leaves.map fun (ln, l) =>
@@ -348,7 +426,35 @@ def extras : List Case := [
       let i ← evProbe [.val 1]; let a ← okS; let j ← evProbe [.val 3]; pure (.ifS 0 i a (.ret 0 j))) ["nt"],
   progCase "x:whileElseReturn" (do
       let i ← evProbe [.val 1]; let j ← evProbe [.val 3]; pure (.whileS 0 i (.brk 0) (.ret 0 j))) ["nt"],
-  progCase "x:whileNever" (do let i ← evProbe []; let b ← okS; pure (.whileS 0 i b .skip))
+  progCase "x:whileNever" (do let i ← evProbe []; let b ← okS; pure (.whileS 0 i b .skip)),
+  -- the handled exception is restored when an inner exception has left a finally / with / handler
+  progCase "x:reraiseAfterFinally" (pure
+    (.tryE 0 (.raise 0 .KeyError) (mk1 .KeyError)
+      (.seq (.tryE 0 (.tryF 0 (.raise 0 .ValueError) (.pass 0)) (mk1 .ValueError) (.pass 0) none .skip .skip) (.reraise 0))
+      none .skip .skip)) ["nt"],
+  progCase "x:reraiseAfterWith" (do
+    let i ← cmProbe [.bool false]
+    pure (.tryE 0 (.raise 0 .KeyError) (mk1 .KeyError)
+      (.seq (.tryE 0 (.withS 0 i (.raise 0 .ValueError)) (mk1 .ValueError) (.pass 0) none .skip .skip) (.reraise 0))
+      none .skip .skip)) ["nt"],
+  progCase "x:reraiseAfterInnerHandlerRaises" (pure
+    (.tryE 0 (.raise 0 .KeyError) (mk1 .KeyError)
+      (.seq (.tryE 0 (.tryE 0 (.raise 0 .ValueError) (mk1 .ValueError) (.raise 0 .IndexError) none .skip .skip)
+               (mk1 .IndexError) (.pass 0) none .skip .skip) (.reraise 0))
+      none .skip .skip)) ["nt"],
+  progCase "x:noActiveAfterFinally" (pure
+    (.seq (.tryE 0 (.tryF 0 (.raise 0 .ValueError) (.pass 0)) (mk1 .ValueError) (.pass 0) none .skip .skip) (.reraise 0))) ["nt"],
+  progCase "x:reraiseCaughtByOuter" (do
+    let a ← okS; let a2 ← okS
+    pure (.tryE 0
+      (.tryE 0 (.raise 0 .KeyError) (mk1 .KeyError)
+        (.seq (.tryE 0 (.tryF 0 (.raise 0 .ValueError) (.pass 0)) (mk1 .ValueError) (.pass 0) none .skip .skip) (.reraise 0))
+        none .skip .skip)
+      (mk1 .ValueError) a2 (some (mk1 .KeyError)) a .skip)) ["nt"],
+  progCase "x:bareRaise" (pure (.reraise 0)) ["nt"],
+  progCase "x:plainReraise" (pure (.tryE 0 (.raise 0 .KeyError) (mk1 .LookupError true) (.reraise 0) none .skip .skip)) ["nt"],
+  progCase "x:reraiseInFinally" (do
+    let a ← okS; pure (.tryF 0 (.seq a (.raise 0 .OverflowError)) (.reraise 0))) ["nt"]
 ]
 
 /-! exception matching -/
@@ -428,6 +534,10 @@ def genMain (tier : String) (seed : Nat) : IO Unit := do
     r := r'
     emit c
   for c in depth1 do emit c
+  for c in depth1Wrapped do emit c
+  emit (progCase "x:wrapped1Raise" (do let a ← okS; pure (.seq a (.raise 0 .KeyError))) ["nt"] 1)
+  emit (progCase "x:wrapped3Reraise" (pure (.tryE 0 (.raise 0 .KeyError) (mk1 .LookupError true) (.reraise 0) none .skip .skip)) ["nt"] 3)
+  emit (progCase "x:wrapped2Return" (do let i ← evProbe [.val 5]; pure (.ret 0 i)) ["nt"] 2)
   for c in depth2 do emit c
   if tier == "thorough" then
     let n := contexts.length
@@ -437,12 +547,20 @@ def genMain (tier : String) (seed : Nat) : IO Unit := do
           for l in [0:leaves.length] do
             emit (depth3At i j k l)
   else
-    for _ in [0:2500] do
+    -- seeded depth 3: 1500 uniform + 4500 weighted towards handler-in-handler / finally-in-handler shapes
+    for _ in [0:1500] do
       let (r1, i) := r.nat contexts.length
       let (r2, j) := r1.nat contexts.length
       let (r3, k) := r2.nat contexts.length
       let (r4, l) := r3.nat leaves.length
       r := r4
       emit (depth3At i j k l)
+    for _ in [0:4500] do
+      let (r1, i) := r.nat wContexts.size
+      let (r2, j) := r1.nat wContexts.size
+      let (r3, k) := r2.nat wContexts.size
+      let (r4, l) := r3.nat wLeaves.size
+      r := r4
+      emit (depth3At wContexts[i]! wContexts[j]! wContexts[k]! wLeaves[l]!)
 
 end GPy.C02
